@@ -27,6 +27,7 @@ type AtClause struct {
 type LoopSpec struct {
 	Invariants []Clause
 	Decreases  *Clause
+	Unfolds    []Clause // definitions instantiated at the loop head (in the loop-head state)
 }
 
 type Block struct {
@@ -54,6 +55,8 @@ type Block struct {
 	File     string
 	Line     int
 	Parent   *Block
+	RetClosure string            // `returns closure NAME [v: expr, ...]`: the result is that function literal ...
+	RetBinds   map[string]string // ... with these captured variables
 	AtClosure []AtClause // `at closure [x, y]: assert E`: holds where a closure capturing x, y is created
 	Writers  []string // `global` block: functions allowed to write the variable
 	Notes    []string // stated assumption behind a declaration
@@ -74,7 +77,7 @@ type SpecFun struct {
 var clauseKw = map[string]bool{"props": true, "requires": true, "ensures": true, "fails_iff": true, "nopanic": true,
 	"pure": true, "trusted": true, "inline": true, "modifies": true, "uses": true, "loop": true, "opcase": true,
 	"assume": true, "unfold": true, "fresh": true, "let": true, "preserves": true, "abstract": true,
-	"writers": true, "note": true, "effects": true, "at": true}
+	"writers": true, "note": true, "effects": true, "at": true, "returns": true}
 var blockKw = map[string]bool{"iface": true, "functype": true, "func": true, "closure": true, "global": true, "entry": true, "spec": true, "define": true, "rec": true, "axioms": true, "lemma": true}
 
 var labelRe = regexp.MustCompile(`^#([A-Za-z0-9_.\-]+)\s+`)
@@ -308,12 +311,40 @@ func (P *Program) ParseContracts(mirrorDir, specDir string) error {
 						c := mk(text)
 						ls.Decreases = &c
 						last = ls.Decreases
+					case "unfold":
+						ls.Unfolds = append(ls.Unfolds, mk(text))
+						last = &ls.Unfolds[len(ls.Unfolds)-1]
 					default:
 						return fmt.Errorf("%s: loop N invariant|decreases EXPR", where)
+					}
+				case "returns":
+					// returns closure NAME [v: expr, w: expr]
+					r := strings.TrimSpace(rest)
+					if !strings.HasPrefix(r, "closure ") {
+						return fmt.Errorf("%s: returns closure NAME [v: expr, ...]", where)
+					}
+					r = strings.TrimSpace(strings.TrimPrefix(r, "closure "))
+					lb, rb := strings.IndexByte(r, '['), strings.LastIndexByte(r, ']')
+					if lb < 0 || rb < lb {
+						return fmt.Errorf("%s: returns closure NAME [v: expr, ...]", where)
+					}
+					tgt.RetClosure = strings.TrimSpace(r[:lb])
+					tgt.RetBinds = map[string]string{}
+					for _, kv := range splitTop(r[lb+1:rb], ',') {
+						parts := strings.SplitN(kv, ":", 2)
+						if len(parts) == 2 {
+							tgt.RetBinds[strings.TrimSpace(parts[0])] = strings.TrimSpace(parts[1])
+						}
 					}
 				case "at":
 					// at closure [a, b]: assert #label EXPR
 					r := strings.TrimSpace(rest)
+					if strings.HasPrefix(r, "call dyn: assume") {
+						// at call dyn: assume EXPR  (stated assumption, listed in the evidence)
+						tgt.AtClosure = append(tgt.AtClosure, AtClause{Callee: "dyn-assume", Clause: mk(strings.TrimSpace(strings.TrimPrefix(r, "call dyn: assume")))})
+						last = &tgt.AtClosure[len(tgt.AtClosure)-1].Clause
+						continue
+					}
 					if strings.HasPrefix(r, "call ") {
 						// at call NAME: assert #label EXPR
 						r = strings.TrimSpace(strings.TrimPrefix(r, "call "))
